@@ -174,6 +174,51 @@ def check(prop, tier, verif_seed, budget_override=None):
                 known_lines.append(f'KNOWN-FINDING: property={prop} {k.get("what", sig)} [signature={sig}] replay={path}')
             else:
                 reported.append((sig, path, rec))
+        if unstable and not reported and not known_lines:
+            # none of the minimised candidates replays exactly (address-dependent state): try the other raw violations
+            # of the batch, unminimised, one at a time, until one does
+            tried = {id(t['rec']) for t in todo}
+            pool = list(agg.violations)
+            if len(pool) - len(todo) < 6:
+                # too few candidates: sample on (the part of the plan that was not reached yet) without stopping early
+                agg2, _ = runner.run_tasks(tasks[::-1][:max(32, len(tasks) // 3)], 30, stop_on_violation=False)
+                pool.extend(agg2.violations)
+                print(f'[{prop}] no candidate replays exactly; sampled on: {len(agg2.violations)} more raw violation(s)',
+                      flush=True)
+            for v in sorted(pool, key=lambda r: r.get('cost', 0)):
+                if id(v) in tried or len(tried) >= len(todo) + 10:
+                    continue
+                tried.add(id(v))
+                rec = dict(v)
+                sig = mod.signature(rec)
+                rec['signature'] = sig
+                path = os.path.join(REPLAY_DIR, f'{prop}-{rec["digest"]}.json')
+                rec['replay_cmd'] = f'{runner.PY} {VERIF_DIR}/check.py {prop} --replay {path}'
+                rec['minimised'] = {'skipped': 'taken unminimised after the minimised candidates did not replay exactly'}
+                write_json(path, rec)
+                ok, msg = replay_file_fresh(prop, path)
+                salt = 0
+                while not ok and salt < 6 and 'NOT-REPRODUCED' in msg:
+                    salt += 1
+                    rec['heap_salt'] = salt
+                    write_json(path, rec)
+                    ok, msg = replay_file_fresh(prop, path)
+                if not ok and 'differs from the recording' in msg:
+                    ok2, _ = replay_file_fresh(prop, path, rewrite=True)
+                    if ok2:
+                        ok, msg = replay_file_fresh(prop, path)
+                        if ok:
+                            with open(path) as f:
+                                rec = json.load(f)
+                            sig = rec.get('signature', sig)
+                if ok:
+                    k = match_known(prop, sig, known)
+                    if k is not None:
+                        known_lines.append(f'KNOWN-FINDING: property={prop} {k.get("what", sig)} [signature={sig}] replay={path}')
+                    else:
+                        reported.append((sig, path, rec))
+                    break
+                unstable.append((path, msg))
         for path, msg in unstable:
             print(f'UNSTABLE {prop}: a violation was observed but its replay file {path} does not reproduce in a fresh '
                   f'interpreter: {msg.strip()[:300]} ... {msg.strip()[-700:]}', flush=True)
